@@ -83,6 +83,9 @@ ghost struct G {
     regs: int,
     spans: Seq<AstNode>,
     loops: Seq<LoopG>,
+    // the current compile frame's declared output type (`-> T`) and whether it is a generator's frame
+    output_type: Option<AstIndex>,
+    is_generator: bool,
 }
 
 struct Compiler { bytes: Vec<u8>, settings: CompilerSettings, g: Ghost<G> }
@@ -201,8 +204,10 @@ fn fixed_or_none(register: Option<u8>) -> (r: ResultRegister) ensures r == (matc
 
 HELPERS = r"""
     spec fn len(&self) -> int { self.bytes@.len() as int }
+    // what no emission changes: the settings and the current compile frame's declared output type / generator flag
+    spec fn fixed(&self) -> (CompilerSettings, Option<AstIndex>, bool) { (self.settings, self.g@.output_type, self.g@.is_generator) }
     // everything but the code, the trace and the patches
-    spec fn same_frame_state(&self, o: &Compiler) -> bool { self.g@.regs == o.g@.regs && self.g@.spans =~= o.g@.spans && self.g@.loops =~= o.g@.loops && self.settings == o.settings }
+    spec fn same_frame_state(&self, o: &Compiler) -> bool { self.g@.regs == o.g@.regs && self.g@.spans =~= o.g@.spans && self.g@.loops =~= o.g@.loops && self.fixed() == o.fixed() }
 
     // ---- emission helpers: PROVED in V-emit / K-emit in terms of the bytes; restated over the trace
     #[verifier::external_body]
@@ -271,7 +276,7 @@ HELPERS = r"""
         post.g@.spans == pre.g@.spans && Self::code_frame_post(pre, post, start)
     }
     spec fn code_frame_post(pre: &Compiler, post: &Compiler, start: int) -> bool {
-        &&& post.settings == pre.settings
+        &&& post.fixed() == pre.fixed()
         // (`break` / `continue` only ever touch the innermost loop: Frame::push_loop_jump_placeholder uses loop_stack.last_mut())
         &&& post.g@.loops.len() == pre.g@.loops.len()
         &&& (pre.g@.loops.len() > 0 ==> post.g@.loops.drop_last() == pre.g@.loops.drop_last() && post.g@.loops.last().start == pre.g@.loops.last().start
@@ -291,31 +296,31 @@ HELPERS = r"""
     // ---- the frame's register stack (PROVED in V-frame for the real Frame; Compiler::push_register etc. wrap them)
     #[verifier::external_body]
     fn push_register(&mut self) -> (r: Result<u8>)
-        ensures final(self).bytes == old(self).bytes, final(self).g@.trace == old(self).g@.trace, final(self).g@.patched == old(self).g@.patched, final(self).g@.spans == old(self).g@.spans, final(self).g@.loops == old(self).g@.loops, final(self).settings == old(self).settings,
+        ensures final(self).bytes == old(self).bytes, final(self).g@.trace == old(self).g@.trace, final(self).g@.patched == old(self).g@.patched, final(self).g@.spans == old(self).g@.spans, final(self).g@.loops == old(self).g@.loops, final(self).fixed() == old(self).fixed(),
             r is Ok ==> final(self).g@.regs == old(self).g@.regs + 1, r is Err ==> final(self).g@.regs == old(self).g@.regs,
     { unimplemented!() }
     #[verifier::external_body]
     fn pop_register(&mut self) -> (r: Result<u8>)
-        ensures final(self).bytes == old(self).bytes, final(self).g@.trace == old(self).g@.trace, final(self).g@.patched == old(self).g@.patched, final(self).g@.spans == old(self).g@.spans, final(self).g@.loops == old(self).g@.loops, final(self).settings == old(self).settings,
+        ensures final(self).bytes == old(self).bytes, final(self).g@.trace == old(self).g@.trace, final(self).g@.patched == old(self).g@.patched, final(self).g@.spans == old(self).g@.spans, final(self).g@.loops == old(self).g@.loops, final(self).fixed() == old(self).fixed(),
             (r is Ok) == (old(self).g@.regs > 0), r is Ok ==> final(self).g@.regs == old(self).g@.regs - 1, r is Err ==> final(self).g@.regs == old(self).g@.regs,
     { unimplemented!() }
     #[verifier::external_body]
     fn stack_count(&self) -> (r: usize) ensures r == self.g@.regs { unimplemented!() }
     #[verifier::external_body]
     fn truncate_register_stack(&mut self, stack_count: usize) -> (r: Result<()>)
-        ensures final(self).bytes == old(self).bytes, final(self).g@.trace == old(self).g@.trace, final(self).g@.patched == old(self).g@.patched, final(self).g@.spans == old(self).g@.spans, final(self).g@.loops == old(self).g@.loops, final(self).settings == old(self).settings,
+        ensures final(self).bytes == old(self).bytes, final(self).g@.trace == old(self).g@.trace, final(self).g@.patched == old(self).g@.patched, final(self).g@.spans == old(self).g@.spans, final(self).g@.loops == old(self).g@.loops, final(self).fixed() == old(self).fixed(),
             (r is Ok) == (stack_count <= old(self).g@.regs), r is Ok ==> final(self).g@.regs == stack_count, r is Err ==> final(self).g@.regs == old(self).g@.regs,
     { unimplemented!() }
 
     // ---- the span stack (`self.span_stack.push(*ast.span(node.span))` / `.pop()`)
     #[verifier::external_body]
     fn push_span(&mut self, node: &AstNode, ast: &Ast)
-        ensures final(self).bytes == old(self).bytes, final(self).g@.trace == old(self).g@.trace, final(self).g@.patched == old(self).g@.patched, final(self).g@.regs == old(self).g@.regs, final(self).g@.loops == old(self).g@.loops, final(self).settings == old(self).settings,
+        ensures final(self).bytes == old(self).bytes, final(self).g@.trace == old(self).g@.trace, final(self).g@.patched == old(self).g@.patched, final(self).g@.regs == old(self).g@.regs, final(self).g@.loops == old(self).g@.loops, final(self).fixed() == old(self).fixed(),
             final(self).g@.spans == old(self).g@.spans.push(*node),
     { unimplemented!() }
     #[verifier::external_body]
     fn pop_span(&mut self)
-        ensures final(self).bytes == old(self).bytes, final(self).g@.trace == old(self).g@.trace, final(self).g@.patched == old(self).g@.patched, final(self).g@.regs == old(self).g@.regs, final(self).g@.loops == old(self).g@.loops, final(self).settings == old(self).settings,
+        ensures final(self).bytes == old(self).bytes, final(self).g@.trace == old(self).g@.trace, final(self).g@.patched == old(self).g@.patched, final(self).g@.regs == old(self).g@.regs, final(self).g@.loops == old(self).g@.loops, final(self).fixed() == old(self).fixed(),
             final(self).g@.spans == (if old(self).g@.spans.len() > 0 { old(self).g@.spans.drop_last() } else { old(self).g@.spans }),
     { unimplemented!() }
 
@@ -323,19 +328,19 @@ HELPERS = r"""
     // `self.frame_mut().push_loop(start, result)` (rule R5)
     #[verifier::external_body]
     fn frame_push_loop(&mut self, start: usize, result: Option<u8>)
-        ensures final(self).bytes == old(self).bytes, final(self).g@.trace == old(self).g@.trace, final(self).g@.patched == old(self).g@.patched, final(self).g@.regs == old(self).g@.regs, final(self).g@.spans == old(self).g@.spans, final(self).settings == old(self).settings,
+        ensures final(self).bytes == old(self).bytes, final(self).g@.trace == old(self).g@.trace, final(self).g@.patched == old(self).g@.patched, final(self).g@.regs == old(self).g@.regs, final(self).g@.spans == old(self).g@.spans, final(self).fixed() == old(self).fixed(),
             final(self).g@.loops == old(self).g@.loops.push(LoopG { start: start as int, result, holes: Set::empty() }),
     { unimplemented!() }
     #[verifier::external_body]
     fn push_loop_jump_placeholder(&mut self) -> (r: Result<()>)
-        ensures final(self).g@.patched == old(self).g@.patched, final(self).g@.regs == old(self).g@.regs, final(self).g@.spans == old(self).g@.spans, final(self).settings == old(self).settings,
+        ensures final(self).g@.patched == old(self).g@.patched, final(self).g@.regs == old(self).g@.regs, final(self).g@.spans == old(self).g@.spans, final(self).fixed() == old(self).fixed(),
             (r is Ok) == (old(self).g@.loops.len() > 0),
             r is Ok ==> final(self).len() == old(self).len() + 2 && final(self).g@.trace == old(self).g@.trace.push(Ev::Hole { at: old(self).len() })
                 && final(self).g@.loops == old(self).g@.loops.drop_last().push(LoopG { holes: old(self).g@.loops.last().holes.insert(old(self).len()), ..old(self).g@.loops.last() }),
     { unimplemented!() }
     #[verifier::external_body]
     fn pop_loop_and_update_placeholders(&mut self) -> (r: Result<()>)
-        ensures final(self).len() == old(self).len(), final(self).g@.trace == old(self).g@.trace, final(self).g@.regs == old(self).g@.regs, final(self).g@.spans == old(self).g@.spans, final(self).settings == old(self).settings,
+        ensures final(self).len() == old(self).len(), final(self).g@.trace == old(self).g@.trace, final(self).g@.regs == old(self).g@.regs, final(self).g@.spans == old(self).g@.spans, final(self).fixed() == old(self).fixed(),
             r is Ok ==> old(self).g@.loops.len() > 0 && final(self).g@.loops == old(self).g@.loops.drop_last()
                 // every jump registered with the loop lands at the end of the code; no other patch changes
                 && (forall|h: int| #![trigger old(self).g@.loops.last().holes.contains(h)] old(self).g@.loops.last().holes.contains(h) ==> final(self).g@.patched.contains_key(h) && final(self).g@.patched[h] == old(self).len())
@@ -400,6 +405,21 @@ HELPERS = r"""
         ensures r matches Ok(out) ==> Self::sub_post(old(self), final(self), ctx.result_register, out)
             && final(self).g@.trace.last() == (Ev::Chain { at: old(self).len(), end: final(self).len(), chain: *chain, piped: piped_arg_register, want: ctx.result_register }),
     { unimplemented!() }
+    // `self.frame().output_type` / `self.frame().is_generator` (rule R5): fields of the current compile frame
+    spec fn output_type(&self) -> Option<AstIndex> { self.g@.output_type }
+    spec fn is_generator(&self) -> bool { self.g@.is_generator }
+    #[verifier::external_body]
+    fn frame_output_type(&self) -> (r: Option<AstIndex>) ensures r == self.output_type() { unimplemented!() }
+    #[verifier::external_body]
+    fn frame_is_generator(&self) -> (r: bool) ensures r == self.is_generator() { unimplemented!() }
+    // how many events the assertion of the frame's output type adds: none without a type hint on the function or
+    // with type checks disabled
+    spec fn output_check_len(&self) -> int { if self.output_type() is Some && self.settings.enable_type_checks { 2 } else { 0 } }
+    // the assertion, at trace index i
+    spec fn output_check_at(&self, ast: &Ast, t: Seq<Ev>, i: int, register: u8, span: Option<AstNode>) -> bool {
+        self.output_check_len() == 2 ==> (ast.at(self.output_type()->0).node matches Node::Type { type_index, allow_null }
+            && t[i].is_spanned_op(if allow_null { Op::AssertOptionalType } else { Op::AssertType }, seq![register], span) && t[i + 1].is_var(type_index.0))
+    }
     // `self.frame().get_local_assigned_register(id)` (rule R5): the register of a local that has been assigned, if `id` is one
     #[verifier::external_body]
     fn frame_local_assigned_register(&self, id: ConstantIndex) -> (r: Option<u8>) ensures r == self.local_register_of(id) { unimplemented!() }
@@ -449,7 +469,7 @@ UNIT = Unit(
         Fn(F, "impl Compiler :: fn assign_result_register", props=P01, spec=r"""
     ensures
         final(self).bytes == old(self).bytes && final(self).g@.trace == old(self).g@.trace && final(self).g@.patched == old(self).g@.patched
-            && final(self).g@.spans == old(self).g@.spans && final(self).g@.loops == old(self).g@.loops && final(self).settings == old(self).settings,
+            && final(self).g@.spans == old(self).g@.spans && final(self).g@.loops == old(self).g@.loops && final(self).fixed() == old(self).fixed(),
         // C01, the result-register protocol: Fixed(r) -> r, not temporary; Any -> a NEW temporary on top of
         // the register stack; None -> no register
         r matches Ok(out) ==> (ctx.result_register matches ResultRegister::Fixed(x) ==> out.register == Some(x) && !out.is_temporary),      // @fixed_request_is_honoured
@@ -464,7 +484,7 @@ UNIT = Unit(
            spec=r"""
     requires old(self).g@.spans.len() > 0,
     ensures
-        final(self).g@.patched == old(self).g@.patched, final(self).same_frame_state(old(self)),                                        // @frame_state_restored
+        final(self).g@.patched == old(self).g@.patched, final(self).same_frame_state(old(self)), final(self).len() >= old(self).len(),  // @frame_state_restored
         ctx.ast.at(type_hint).node is Type ==> r is Ok,
         // C16: with type checks enabled exactly one AssertType / AssertOptionalType (for `T?`) instruction on the
         // value's register, followed by the type's constant; the failure is reported at `span` when given
@@ -600,7 +620,7 @@ proof { lemma_sw_step(ctx.ast, arms@, 0); }"""),
 }""", -1)],
            loops={1: r"""
             invariant
-                self.g@.spans == old(self).g@.spans, self.g@.spans.len() > 0, self.settings == old(self).settings,
+                self.g@.spans == old(self).g@.spans, self.g@.spans.len() > 0, self.fixed() == old(self).fixed(),
                 self.g@.regs == old(self).g@.regs + (if result.is_temporary { 1int } else { 0 }), stack_count == self.g@.regs,
                 switch_arm_context.ast == ctx.ast, switch_arm_context.result_register == want, want == fixed_or_none_spec(result.register),
                 n == old(self).g@.trace.len(), prefix(old(self).g@.trace, self.g@.trace), self.len() >= old(self).len(),
@@ -624,7 +644,7 @@ proof { lemma_sw_step(ctx.ast, arms@, 0); }"""),
                 it.index@ == 0 ==> !last_arm_is_else,
 """, 2: r"""
             invariant
-                self.g@.trace == t_end, self.settings == old(self).settings, self.g@.regs == stack_count, self.len() >= old(self).len(),
+                self.g@.trace == t_end, self.fixed() == old(self).fixed(), self.g@.regs == stack_count, self.len() >= old(self).len(),
                 Self::frame_post(old(self), self, old(self).len()),
                 forall|h: int| #![trigger cond_holes.contains(h)] cond_holes.contains(h) ==> self.g@.patched.contains_key(h) && self.g@.patched[h] == cond_target[h],
                 forall|q: int| 0 <= q < result_jump_placeholders@.len() ==> old(self).len() <= (#[trigger] result_jump_placeholders@[q]) && result_jump_placeholders@[q] + 2 <= self.len() && !cond_holes.contains(result_jump_placeholders@[q] as int),
@@ -707,7 +727,7 @@ proof {
 }""", -1)],
            loops={1: r"""
             invariant
-                self.g@.spans == old(self).g@.spans, self.g@.spans.len() > 0, self.settings == old(self).settings,
+                self.g@.spans == old(self).g@.spans, self.g@.spans.len() > 0, self.fixed() == old(self).fixed(),
                 self.g@.regs == old(self).g@.regs + (if result.is_temporary { 1int } else { 0 }),
                 expression_context.ast == ctx.ast, expression_context.result_register == want, want == fixed_or_none_spec(result.register),
                 n == old(self).g@.trace.len(), prefix(t_head, self.g@.trace), b == t_head.len(), n + 4 <= b, self.len() >= old(self).len(),
@@ -726,7 +746,7 @@ proof {
                 if_jump_ip matches Some(x) ==> old(self).len() <= x && x + 2 <= self.len() && !cond_holes.contains(x as int),
 """, 2: r"""
             invariant
-                self.g@.trace == t_end, self.settings == old(self).settings, self.g@.regs == old(self).g@.regs + (if result.is_temporary { 1int } else { 0 }), self.len() == len_end,
+                self.g@.trace == t_end, self.fixed() == old(self).fixed(), self.g@.regs == old(self).g@.regs + (if result.is_temporary { 1int } else { 0 }), self.len() == len_end,
                 Self::frame_post(old(self), self, old(self).len()),
                 forall|h: int| #![trigger cond_holes.contains(h)] cond_holes.contains(h) ==> self.g@.patched.contains_key(h) && self.g@.patched[h] == cond_target[h],
                 forall|q: int| 0 <= q < else_if_jump_ips@.len() ==> old(self).len() <= (#[trigger] else_if_jump_ips@[q]) && else_if_jump_ips@[q] + 2 <= self.len() && !cond_holes.contains(else_if_jump_ips@[q] as int),
@@ -820,7 +840,7 @@ let ghost mut rs: Seq<AstIndex> = seq![rhs0]; let ghost mut operands: Seq<AstInd
             invariant
                 forall|x: AstBinaryOp| #[trigger] get_comparision_op.requires((x,)),
                 forall|x: AstBinaryOp, y: core::result::Result<Op, ErrorKind>| #[trigger] get_comparision_op.ensures((x,), y) ==> ((y is Ok) == (cmp_op_spec(x) is Ok)) && (y matches Ok(o) ==> cmp_op_spec(x) == Ok::<Op, ErrorKind>(o)),
-                self.g@.spans == old(self).g@.spans, self.g@.spans.len() > 0, self.settings == old(self).settings, self.g@.regs >= stack_count,
+                self.g@.spans == old(self).g@.spans, self.g@.spans.len() > 0, self.fixed() == old(self).fixed(), self.g@.regs >= stack_count,
                 n == old(self).g@.trace.len(), prefix(old(self).g@.trace, self.g@.trace), self.len() >= old(self).len(),
                 Self::frame_post(old(self), self, old(self).len()),
                 // the chain so far
@@ -841,7 +861,7 @@ let ghost mut rs: Seq<AstIndex> = seq![rhs0]; let ghost mut operands: Seq<AstInd
                 !(ctx.ast.at(rhs).node is BinaryOp && is_cmp(bin_op(ctx.ast, rhs))),
 """, 2: r"""
             invariant
-                self.g@.trace == t_end, self.settings == old(self).settings, self.g@.regs >= stack_count, self.len() == len_end, self.g@.spans == old(self).g@.spans,
+                self.g@.trace == t_end, self.fixed() == old(self).fixed(), self.g@.regs >= stack_count, self.len() == len_end, self.g@.spans == old(self).g@.spans,
                 Self::frame_post(old(self), self, old(self).len()),
                 forall|q: int| 0 <= q < jump_offsets@.len() ==> old(self).len() <= (#[trigger] jump_offsets@[q]) && jump_offsets@[q] + 2 <= self.len(),
                 forall|q: int| 0 <= q < it2.index@ ==> self.g@.patched.contains_key(#[trigger] jump_offsets@[q] as int) && self.g@.patched[jump_offsets@[q] as int] == self.len(),
@@ -879,7 +899,7 @@ let ghost mut rs: Seq<AstIndex> = seq![rhs0]; let ghost mut operands: Seq<AstInd
            loops={1: r"""
             invariant
                 i__ == it.index@, catch_blocks@.len() <= usize::MAX, !(try_result_register is Any),
-                self.g@.spans == old(self).g@.spans, self.g@.spans.len() > 0, self.settings == old(self).settings, self.g@.regs == r0,
+                self.g@.spans == old(self).g@.spans, self.g@.spans.len() > 0, self.fixed() == old(self).fixed(), self.g@.regs == r0,
                 n == old(self).g@.trace.len(), t_head.len() == n + 7, prefix(t_head, self.g@.trace), self.len() >= old(self).len(),
                 Self::frame_post(old(self), self, old(self).len()),
                 // the jumps to the finally block: all inside the code emitted here; the first one is the try block's
@@ -890,13 +910,13 @@ let ghost mut rs: Seq<AstIndex> = seq![rhs0]; let ghost mut operands: Seq<AstInd
                 forall|q: int| 0 <= q < finally_jump_placeholders@.len() ==> t_head[n + 1].pos() + 2 <= #[trigger] finally_jump_placeholders@[q],
 """, 2: r"""
             invariant
-                self.g@.trace == t3, self.len() == len3, self.g@.spans == sp3, self.settings == old(self).settings, self.g@.regs == r0,
+                self.g@.trace == t3, self.len() == len3, self.g@.spans == sp3, self.fixed() == old(self).fixed(), self.g@.regs == r0,
                 Self::code_frame_post(old(self), self, old(self).len()), old(self).len() <= s_it.len(), t_head[n + 1].pos() + 2 <= s_it.len(),
                 forall|q: int| 0 <= q < type_check_jump_placeholders@.len() ==> s_it.len() <= (#[trigger] type_check_jump_placeholders@[q]) && type_check_jump_placeholders@[q] + 2 <= self.len(),
                 self.g@.patched.contains_key(t_head[n + 1].pos()) && self.g@.patched[t_head[n + 1].pos()] == t_head[n + 6].pos(),
 """, 3: r"""
             invariant
-                self.g@.trace == t_end, self.len() == len_end, self.g@.spans == old(self).g@.spans, self.settings == old(self).settings, self.g@.regs == r0 - 1,
+                self.g@.trace == t_end, self.len() == len_end, self.g@.spans == old(self).g@.spans, self.fixed() == old(self).fixed(), self.g@.regs == r0 - 1,
                 Self::frame_post(old(self), self, old(self).len()),
                 forall|q: int| 0 <= q < finally_jump_placeholders@.len() ==> old(self).len() <= (#[trigger] finally_jump_placeholders@[q]) && finally_jump_placeholders@[q] + 2 <= self.len(),
                 forall|q: int| 0 <= q < finally_jump_placeholders@.len() ==> t_head[n + 1].pos() + 2 <= #[trigger] finally_jump_placeholders@[q],
@@ -1027,6 +1047,67 @@ let ghost mut rs: Seq<AstIndex> = seq![rhs0]; let ghost mut operands: Seq<AstInd
     ensures
         // arithmetic operators go to compile_arithmetic_op: what it guarantees is what a binary arithmetic node gets
         (arith_op_spec(op) is Some && r is Ok) ==> prefix(old(self).g@.trace, final(self).g@.trace) && Self::frame_post(old(self), final(self), old(self).len()),   // @arithmetic_operators_dispatched
+"""),
+        # ---- C16: the declared output type of a function is asserted on every returned / yielded value
+        Fn(F, "impl Compiler :: fn compile_check_output_type", props=P16,
+           subst=[("self.frame().output_type", "self.frame_output_type()", 1)],
+           spec=r"""
+    requires old(self).g@.spans.len() > 0,
+    ensures
+        final(self).g@.patched == old(self).g@.patched, final(self).same_frame_state(old(self)), final(self).len() >= old(self).len(),
+        // C16: nothing without a declared output type (or with type checks disabled), else ONE assertion of that type on
+        // the register, reported at `span`
+        r is Ok ==> final(self).g@.trace.len() == old(self).g@.trace.len() + old(self).output_check_len() && prefix(old(self).g@.trace, final(self).g@.trace)
+            && old(self).output_check_at(ctx.ast, final(self).g@.trace, old(self).g@.trace.len() as int, register, Some(match span { Some(s) => ctx.ast.at(s), None => old(self).g@.spans.last() })),   // @declared_output_type_asserted
+"""),
+        Fn(F, "impl Compiler :: fn compile_yield", props=("C16", "C01", "C06"), before=[TAIL],
+           spec=r"""
+    requires old(self).g@.spans.len() > 0,
+    ensures
+        r is Ok ==> prefix(old(self).g@.trace, final(self).g@.trace),
+        // the value is evaluated, its type asserted against the generator's declared output type (C16: hints on yield),
+        // THEN it is yielded; what the generator is resumed with is the yield expression's value
+        r matches Ok(out) ==> ({
+            let t = final(self).g@.trace; let n = old(self).g@.trace.len() as int; let c = old(self).output_check_len();
+            &&& t.len() == n + 1 + c + 1 + (if out.register is Some { 1int } else { 0 })
+            &&& t[n].is_node(expression, ResultRegister::Any)
+            &&& old(self).output_check_at(ctx.ast, t, n + 1, t[n].reg(), Some(ctx.ast.at(yield_node)))
+            &&& t[n + 1 + c].is_op(Op::Yield, seq![t[n].reg()])
+            &&& (out.register matches Some(x) ==> t[n + 2 + c].is_op(Op::Copy, seq![x, t[n].reg()])) }),                                   // @value_checked_then_yielded
+        r matches Ok(out) ==> final(self).g@.regs == old(self).g@.regs + (if out.is_temporary { 1int } else { 0 }),                       // @temporaries_released
+        r is Ok ==> Self::frame_post(old(self), final(self), old(self).len()),                                                           // @earlier_code_and_enclosing_loops_untouched
+        r matches Ok(out) ==> (ctx.result_register matches ResultRegister::Fixed(x) ==> out.register == Some(x) && !out.is_temporary),
+        r matches Ok(out) ==> (ctx.result_register is Any ==> out.register is Some && out.is_temporary),
+        r matches Ok(out) ==> (ctx.result_register is None ==> out.register is None),                                                     // @result_request_is_honoured
+"""),
+        Fn(F, "impl Compiler :: fn compile_return", props=("C16", "C01", "C06"),
+           subst=[("self.frame().is_generator", "self.frame_is_generator()", 1)],
+           before=[("Ok(result)", "proof { assert(Self::frame_post(old(self), self, old(self).len())); assert(prefix(old(self).g@.trace, self.g@.trace)); }", -1)],
+           spec=r"""
+    requires old(self).g@.spans.len() > 0,
+    ensures
+        r is Ok ==> prefix(old(self).g@.trace, final(self).g@.trace),
+        // `return expr`: the value is evaluated, its type asserted against the function's declared output type (not in a
+        // generator, whose declared type is about what it yields), then returned
+        r matches Ok(out) ==> (expression matches Some(e) ==> ({
+            let t = final(self).g@.trace; let n = old(self).g@.trace.len() as int; let c = if old(self).is_generator() { 0 } else { old(self).output_check_len() };
+            &&& t.len() >= n + 1 + c + 1 && t[n].is_node(e, ResultRegister::Any)
+            &&& (!old(self).is_generator() ==> old(self).output_check_at(ctx.ast, t, n + 1, t[n].reg(), Some(ctx.ast.at(return_node))))
+            &&& (match ctx.result_register {
+                    ResultRegister::Fixed(x) => t.len() == n + 3 + c && t[n + 1 + c].is_op(Op::Copy, seq![x, t[n].reg()]) && t[n + 2 + c].is_op(Op::Return, seq![x]),
+                    _ => t.len() == n + 2 + c && t[n + 1 + c].is_op(Op::Return, seq![t[n].reg()]),
+                }) })),                                                                                                                   // @value_checked_then_returned
+        // a bare `return` returns null, which is checked like any other value
+        r matches Ok(out) ==> (expression is None ==> ({
+            let t = final(self).g@.trace; let n = old(self).g@.trace.len() as int; let c = if old(self).is_generator() { 0 } else { old(self).output_check_len() };
+            t.len() == n + 2 + c && (t[n] matches Ev::Op { op, args, .. } && op == Op::SetNull && args.len() == 1
+                && (!old(self).is_generator() ==> old(self).output_check_at(ctx.ast, t, n + 1, args[0], Some(old(self).g@.spans.last())))
+                && t[n + 1 + c].is_op(Op::Return, seq![args[0]])) })),                                                                    // @bare_return_returns_null
+        r matches Ok(out) ==> final(self).g@.regs == old(self).g@.regs + (if out.is_temporary { 1int } else { 0 }),                       // @temporaries_released
+        r is Ok ==> Self::frame_post(old(self), final(self), old(self).len()),                                                           // @earlier_code_and_enclosing_loops_untouched
+        r matches Ok(out) ==> (ctx.result_register matches ResultRegister::Fixed(x) ==> out.register == Some(x) && !out.is_temporary),
+        r matches Ok(out) ==> (out.is_temporary ==> ctx.result_register is Any),
+        r matches Ok(out) ==> (ctx.result_register is None ==> out.register is None),                                                     // @result_request_is_honoured
 """),
         # ---- compile_node, arm by arm (rule R13): the `debug` expression
         Fn(F, "impl Compiler :: fn compile_node", props=("C01", "C12", "C06"), rename="compile_node__debug_arm",
